@@ -267,10 +267,10 @@ def run_faulty(ctx, run, name, case):
             V(run, "harness-parse", "thread program not understood in %s" % name, replay, no_input=True)
     if rc != 0:
         ma = re.search(r"(\S+): (\w+): Assertion `([^']*)' failed", err)
-        ms = re.search(r"ERROR: (\w+Sanitizer): ([\w-]+)", err)
+        ms = re.search(r"ERROR: (\w+Sanitizer): ((?:attempting )?[\w-]+)", err)
         if ms and not ma:
             fr = re.search(r"#\d+ \S+ in (hwloc_\w+) ", err)
-            V(run, "sanitizer:%s:%s" % (ms.group(2), fr.group(1) if fr else "?"),
+            V(run, "sanitizer:%s:%s" % (ms.group(2).replace("attempting ", ""), fr.group(1) if fr else "?"),
               "%s: %s in %s while independent histories ran on distinct topologies (%s)" % (ms.group(1), ms.group(2), fr.group(1) if fr else "?", name),
               replay + "\nstderr:\n" + err[:4000])
         elif ma:
